@@ -129,6 +129,53 @@ Proof. destruct a; cbn; split; intros; congruence. Qed.
 Lemma time_sub_self t : time_sub t t = 0.
 Proof. unfold time_sub, sat64, min64, max64. replace (t - t) with 0 by lia. reflexivity. Qed.
 
+(* clamping to [0, max64] is sub-additive *)
+Definition clamp (z : Z) : Z := Z.max 0 (Z.min max64 z).
+Lemma clamp_subadd x y : clamp (x + y) <= clamp x + clamp y.
+Proof. unfold clamp, max64; lia. Qed.
+Lemma clamp_range z : 0 <= clamp z <= max64.
+Proof. unfold clamp, max64; lia. Qed.
+
+(* the age computed at [now], advanced by the time elapsed until [now'], is at least the specification's
+   age at [now'] *)
+Lemma age_later e now now' :
+  sv_age (view_of e) now' <= go_sat_add (entry_age e now) (Z.max (time_sub now' now) 0).
+Proof.
+  rewrite sv_age_view. unfold entry_age, spec_current_age, current_age.
+  pose proof (age_value_le (e_hdr e)) as Hav. cbv zeta in Hav.
+  set (age_val := match hget (bs "Age") (e_hdr e) with [] => 0 | s0 => atoi_drop_err s0 end) in *.
+  set (impl_av := if age_val <=? max_delta_seconds then Z.max age_val 0 * second else max64) in *.
+  destruct Hav as [[Hs0 Hs1] Hs2].
+  rewrite !time_sub_pos.
+  fold (clamp (e_recv_at e - e_req_at e)) (clamp (now - e_recv_at e)) (clamp (now' - e_recv_at e))
+       (clamp (now' - now)) (clamp (e_recv_at e - date_header (e_hdr e))).
+  set (app_s := match spec_time (hget (bs "Date") (e_hdr e)) with
+                | Some d => Z.max 0 (Z.min max64 (e_recv_at e - d)) | None => 0 end).
+  assert (Has : 0 <= app_s <= clamp (e_recv_at e - date_header (e_hdr e))).
+  { unfold app_s, clamp, date_header, spec_time. destruct (raw_time _); unfold max64; lia. }
+  pose proof (clamp_range (e_recv_at e - e_req_at e)) as Hdl.
+  pose proof (clamp_range (now - e_recv_at e)) as Hr1.
+  pose proof (clamp_range (now' - e_recv_at e)) as Hr2.
+  pose proof (clamp_range (now' - now)) as Hdt.
+  pose proof (clamp_range (e_recv_at e - date_header (e_hdr e))) as Hai.
+  pose proof (clamp_subadd (now - e_recv_at e) (now' - now)) as Hsub.
+  replace (now - e_recv_at e + (now' - now)) with (now' - e_recv_at e) in Hsub by lia.
+  generalize dependent (clamp (e_recv_at e - e_req_at e)); intros delay Hdl.
+  generalize dependent (clamp (now - e_recv_at e)); intros r1 Hr1.
+  generalize dependent (clamp (now' - e_recv_at e)); intros r2 Hr2.
+  generalize dependent (clamp (now' - now)); intros dt Hdt.
+  generalize dependent (clamp (e_recv_at e - date_header (e_hdr e))); intros app_i Hai.
+  generalize dependent (spec_age_value (e_hdr e)); intros sav.
+  clearbody app_s impl_av. clear age_val.
+  intros.
+  rewrite (go_sat_add_spec impl_av delay) by lia.
+  assert (Hc1 : 0 <= sat_add impl_av delay <= max64) by (apply sat_add_range; lia).
+  rewrite (go_sat_add_spec (Z.max app_i (sat_add impl_av delay)) r1) by lia.
+  assert (Hc2 : 0 <= sat_add (Z.max app_i (sat_add impl_av delay)) r1 <= max64) by (apply sat_add_range; lia).
+  rewrite go_sat_add_spec by lia.
+  unfold sat_add in *. unfold max64 in *. lia.
+Qed.
+
 Section Decision.
   Variables (q : request) (e : stored_entry) (now : Z).
   Hypothesis Hd : valid_date (e_hdr e).
@@ -153,16 +200,11 @@ Section Decision.
     rewrite !Bool.orb_true_r. reflexivity.
   Qed.
 
-  (* C02: what is served without validation does not need validation *)
-  Theorem decision_needs_no_validation :
-    decide_hit q e now = DServe \/ decide_hit q e now = DServeSWR ->
-    needs_validation s q now = false.
+  (* whenever the specification demands validation, the implementation's must-validate test fires *)
+  Lemma no_must_validate_spec :
+    hit_must_validate q e f = false -> needs_validation s q now = false.
   Proof.
-    intros Hdec.
-    assert (Hmv : hit_must_validate q e f = false).
-    { unfold decide_hit in Hdec. fold rcc cc f in Hdec.
-      destruct (hit_must_validate q e f); [|reflexivity].
-      destruct (req_only_if_cached rcc); destruct Hdec; discriminate. }
+    intros Hmv.
     assert (Hn0 : req_max_age rcc <> Some 0).
     { intros E. rewrite (shortcut_must_validate E) in Hmv. discriminate. }
     pose proof (calc_fresh_facts q e now Hd Hs Hn0) as FF. fold rcc cc f in FF.
@@ -188,6 +230,50 @@ Section Decision.
     - rewrite <- duration_directive_spec. change (duration_directive rcc (bs "max-age")) with (req_max_age rcc).
       destruct (req_max_age rcc) as [m|] eqn:Em; [|reflexivity].
       rewrite (ff_exceeded _ _ _ _ FF m Em) in Hex. lia.
+  Qed.
+
+  (* C02: what is served without validation does not need validation *)
+  Theorem decision_needs_no_validation :
+    decide_hit q e now = DServe \/ decide_hit q e now = DServeSWR ->
+    needs_validation s q now = false.
+  Proof.
+    intros Hdec. apply no_must_validate_spec.
+    unfold decide_hit in Hdec. fold rcc cc f in Hdec.
+    destruct (hit_must_validate q e f); [|reflexivity].
+    destruct (req_only_if_cached rcc); destruct Hdec; discriminate.
+  Qed.
+
+  (* C13: when the stored response is returned because validation failed, a stale-if-error window of
+     the stored response or of the request covers its staleness at that moment *)
+  Theorem sie_within_window now' :
+    req_max_age rcc <> Some 0 ->
+    can_stale_on_error f [resp_stale_if_error cc; req_stale_if_error rcc] now' = true ->
+    exists n, (sd_duration (bs "stale-if-error") cc = Some n \/ sd_duration (bs "stale-if-error") rcc = Some n)
+              /\ within_window (sv_age s now') (sv_life s) n = true.
+  Proof.
+    intros Hn0 Hc.
+    pose proof (calc_fresh_facts q e now Hd Hs Hn0) as FF. fold rcc cc f in FF.
+    pose proof lives as [[Hl0 Hl1] Hl2].
+    pose proof (ff_age _ _ _ _ FF) as Hfa. pose proof (ff_ts _ _ _ _ FF) as Hft.
+    pose proof (ff_life_le _ _ _ _ FF) as Hfl. fold cc in Hfl. pose proof (ff_life_nonneg _ _ _ _ FF) as Hfl0.
+    (* the age the policy uses is at least the specification's age at that instant *)
+    assert (Hage : sv_age s now' <= go_sat_add (f_age f) (Z.max (time_sub now' (f_age_ts f)) 0)).
+    { rewrite Hfa, Hft. apply age_later. }
+    unfold can_stale_on_error in Hc. cbn [existsb] in Hc. rewrite Bool.orb_false_r in Hc.
+    assert (Hone : forall d n, d = Some n -> 0 <= n <= max64 ->
+                   go_sat_add (f_age f) (Z.max (time_sub now' (f_age_ts f)) 0) <? go_sat_add (f_life f) n = true ->
+                   within_window (sv_age s now') (sv_life s) n = true).
+    { intros d n _ Hn Hlt. rewrite (go_sat_add_spec (f_life f) n) in Hlt by (unfold max64 in *; lia).
+      unfold within_window, sat_add, max64 in *. lia. }
+    apply Bool.orb_true_iff in Hc as [Hc|Hc].
+    - destruct (resp_stale_if_error cc) as [n|] eqn:E; [|discriminate].
+      exists n. split; [left; rewrite <- duration_directive_spec; exact E|].
+      apply (Hone _ n E); [|exact Hc].
+      unfold resp_stale_if_error, duration_directive in E. destruct (alookup _ cc); [|discriminate]. apply (delta_range _ _ E).
+    - destruct (req_stale_if_error rcc) as [n|] eqn:E; [|discriminate].
+      exists n. split; [right; rewrite <- duration_directive_spec; exact E|].
+      apply (Hone _ n E); [|exact Hc].
+      unfold req_stale_if_error, duration_directive in E. destruct (alookup _ rcc); [|discriminate]. apply (delta_range _ _ E).
   Qed.
 
   (* C01: reuse without contacting the origin only while fresh, or with explicit leave *)
